@@ -458,6 +458,66 @@ def r5_conversion(ctx):
                               detail=e.key(), expected=forms[0].key())
 
 
+    _scaled_converters(ctx)
+
+
+def _scaled_converters(ctx):
+    """convert() rescales the uncertainty only for the converter names it tests for.  Every converter the standard unit
+    type can select whose rule is the identity (or a constant multiple) of its argument converts the value by the plain
+    factor f1/f2, so it has to be among those names - otherwise the value is scaled and the uncertainty is not."""
+    fn = ctx.fn(UT, "UnitType.convert")
+    scaled = set()
+    for c in ast.walk(fn):
+        if isinstance(c, ast.Compare) and len(c.ops) == 1 and norm(c.left) == "self.conversion[0]":
+            r = c.comparators[0]
+            if isinstance(c.ops[0], ast.Eq) and isinstance(r, ast.Constant) and isinstance(r.value, str):
+                scaled.add(r.value)
+            elif isinstance(c.ops[0], ast.In) and isinstance(r, (ast.Tuple, ast.List, ast.Set)):
+                scaled |= {e.value for e in r.elts if isinstance(e, ast.Constant) and isinstance(e.value, str)}
+    ist = ctx.fn(UT, "StandardUnitType._istype")
+    selected = set()
+    for a in ast.walk(ist):
+        if isinstance(a, ast.Assign) and any(norm(t) == "self.conversion" for t in a.targets) and isinstance(a.value, ast.Tuple) and a.value.elts:
+            e0 = a.value.elts[0]
+            if isinstance(e0, ast.Constant) and isinstance(e0.value, str):
+                selected.add(e0.value)
+            elif isinstance(e0, ast.JoinedStr) and all(isinstance(v, ast.Constant) for v in e0.values):
+                selected.add("".join(v.value for v in e0.values))
+    ctx.form(bool(scaled) and bool(selected), UT, "UnitType.convert", "the converter names with rescaled uncertainty and the names the standard type selects are found",
+             detail={"rescaled": sorted(scaled), "selected": sorted(selected)})
+    mod = ctx.repo.module(UT)
+    for name in sorted(selected):
+        owner = None
+        for cname in ("StandardUnitType", "UnitType"):
+            m_ = methods(ctx.repo.cls(UT, cname)).get(name)
+            if m_ is not None:
+                owner = (cname, m_)
+                break
+        if owner is None:
+            ctx.form(False, UT, f"StandardUnitType.{name}", "selected converter is defined")
+            continue
+        cname, m_ = owner
+        rets = [r.value for r in ast.walk(m_) if isinstance(r, ast.Return) and r.value is not None]
+        arg = m_.args.args[1].arg if len(m_.args.args) >= 2 else None
+        if len(rets) != 1 or arg is None:
+            ctx.form(False, UT, f"{cname}.{name}", "selected converter is a single expression of its argument")
+            continue
+        try:
+            t = SymEval({arg: Term.sym("x")}).ev(rets[0])
+            x = Term.sym("x")
+            proportional = t.equals(x) or (t / x).is_const() if hasattr(t, "is_const") else t.equals(x)
+        except NotSymbolic:
+            proportional = None
+        what = f"converter {name}: an identity/proportional rule has its uncertainty rescaled by convert()"
+        if proportional and name not in scaled:
+            ctx.violated(UT, f"{cname}.{name}", what, detail={"rule": norm(rets[0]), "rescaled names": sorted(scaled)},
+                         expected="the value is multiplied by f1/f2, so the absolute uncertainty must be too")
+        elif proportional is None:
+            ctx.form(False, UT, f"{cname}.{name}", what, detail=norm(rets[0]))
+        else:
+            ctx.holds(UT, f"{cname}.{name}", what)
+
+
 # ---------------------------------------------------------------- R6
 def _linear_scaling_of(node):
     """X if node is `X.value * f`, `f * X.value` or `X.value / f` (top-level linear scaling), else None."""
